@@ -270,6 +270,9 @@ func (e *Env) havocModifies(it *Item, ctx *SpecCtx, st *State) {
 }
 
 func (e *Env) havocLoc(ctx *SpecCtx, x *SExpr, st *State) {
+	if e.writeLog != nil {
+		e.writeLog["*callee-modifies*"] = append(e.writeLog["*callee-modifies*"], x.String())
+	}
 	switch x.Op {
 	case "sel":
 		base := ctx.eval(x.Args[0])
@@ -454,21 +457,33 @@ func (e *Env) specCallReal(c *SpecCtx, fn *ssa.Function, args []Value) Value {
 	if len(fn.Blocks) == 0 {
 		unsupp("spec call of %s: no body", fn)
 	}
-	st := c.st.clone()
-	st.pc = tTrue
-	fr := &Frame{fn: fn, pure: true, sname: shortName(fn), depth: 1, item: nil}
-	fr.regs = map[ssa.Value]Value{}
-	e.dry++
-	res, _ := e.execFunc(fr, args, st)
-	e.dry--
-	if res == nil {
-		unsupp("spec call of %s never returns", fn)
-	}
+	res := e.pureCall(fn, nil, args, c.st)
 	var rt types.Type = fn.Signature.Results()
 	if fn.Signature.Results().Len() == 1 {
 		rt = fn.Signature.Results().At(0).Type()
 	}
 	return resultValue(rt, res)
+}
+
+// pureCall executes fn (a loop-free function without side effects that matter) on a copy
+// of the state and returns its results; no obligations are generated.
+func (e *Env) pureCall(fn *ssa.Function, bind []Value, args []Value, st0 *State) []Value {
+	st := st0.clone()
+	st.pc = tTrue
+	fr := &Frame{fn: fn, pure: true, sname: shortName(fn), depth: 1, item: nil}
+	fr.regs = map[ssa.Value]Value{}
+	for i, fv := range fn.FreeVars {
+		fr.regs[fv] = bind[i]
+	}
+	e.dry++
+	prev := e.cur
+	res, _ := e.execFunc(fr, args, st)
+	e.cur = prev
+	e.dry--
+	if res == nil && fn.Signature.Results().Len() > 0 {
+		unsupp("pure call of %s never returns", fn)
+	}
+	return res
 }
 
 // specInvoke: interface method in a spec: uninterpreted function of the receiver (and
@@ -636,7 +651,9 @@ func (e *Env) appendOp(fr *Frame, s *Slice, more Value, st *State) Value {
 	// case 1: in place; case 2: reallocation
 	r := e.alloc(st)
 	newCap := e.fresh("appcap", sInt)
-	e.assume(mkAnd(sx(">=", newCap, newLen), sx("<=", newCap, "281474976710656")))
+	e.assume(mkAnd(sx(">=", newCap, newLen), sx("<=", newCap, maxElems(et))))
+	// growing beyond the allocation limit panics ("growslice: len out of range")
+	e.panicCheck(fr, "append", st, sx("<=", newLen, maxElems(et)))
 	resArr := e.maybeName(mkIte(fits, s.Arr, r), sInt)
 	resOff := e.maybeName(mkIte(fits, s.Off, "0"), sInt)
 	resCap := e.maybeName(mkIte(fits, s.Cap, newCap), sInt)
@@ -673,6 +690,7 @@ func (e *Env) appendOp(fr *Frame, s *Slice, more Value, st *State) Value {
 			newInner = ni
 		}
 		e.heapSet(st, name, sorts[i], e.maybeName(mkStore(arr, resArr, newInner), sorts[i]))
+		e.noteWrite(name, resArr)
 	}
 	return &Slice{Arr: resArr, Off: resOff, Len: newLen, Cap: resCap, Typ: s.Typ}
 }
@@ -705,6 +723,7 @@ func (e *Env) copyOp(fr *Frame, dst *Slice, srcv Value, rt types.Type, st *State
 		e.assume(fmt.Sprintf("(forall ((%s Int)) (! (ite (and (<= %s %s) (< %s (+ %s %s))) (= (select %s %s) (select %s (+ %s (- %s %s)))) (= (select %s %s) (select %s %s))) :pattern ((select %s %s))))",
 			j, dst.Off, j, j, dst.Off, n, ni, j, srcA, src.Off, j, dst.Off, ni, j, old, j, ni, j))
 		e.heapSet(st, name, sorts[i], e.maybeName(mkStore(arr, dst.Arr, ni), sorts[i]))
+		e.noteWrite(name, dst.Arr)
 	}
 	return intV(n, rt)
 }
